@@ -690,6 +690,14 @@ def generate_coords():
                      [("region[0]", "w", "rat"), ("region[1]", "e", "rat"), ("region[2]", "s", "rat"), ("region[3]", "n", "rat"),
                       ("shape", "shape", "opt:intpair"), ("spacing", "spacing", "opt:ratlist"), ("adjust", "adjust", "str"),
                       ("pixel_register", "pixel", "bool")], "ratlistpair", stop_at="coordinates"),
+        translate_do("verde/coordinates.py", "rolling_window", "rollingCentres",
+                     [("coordinates[0]", "east", "ratlist"), ("coordinates[1]", "north", "ratlist"), ("size", "size", "rat"),
+                      ("spacing", "spacing", "opt:ratlist"), ("shape", "shape", "opt:intpair"), ("region", "region", "opt:ratquad"),
+                      ("adjust", "adjust", "str")], "ratlistpair", stop_at="centers"),
+        translate_do("verde/coordinates.py", "block_split", "blockLines",
+                     [("coordinates[0]", "east", "ratlist"), ("coordinates[1]", "north", "ratlist"), ("spacing", "spacing", "opt:ratlist"),
+                      ("adjust", "adjust", "str"), ("region", "region", "opt:ratquad"), ("shape", "shape", "opt:intpair")],
+                     "ratlistpair", stop_at="block_coords"),
         translate_typed("verde/coordinates.py", "shape_to_spacing", "shapeToSpacing",
                         [("region[0]", "w", "rat"), ("region[1]", "e", "rat"), ("region[2]", "s", "rat"), ("region[3]", "n", "rat"),
                          ("shape[0]", "nNorth", "int"), ("shape[1]", "nEast", "int"), ("pixel_register", "pixel", "bool")],
@@ -924,7 +932,44 @@ def translate_v2w():
 # ============================================================================= statement-by-statement (do-notation) translation
 LEAN_TY = {"rat": "Rat", "int": "Int", "bool": "Bool", "str": "String", "optint": "Option Int", "optrat": "Option Rat",
            "ratlist": "List Rat", "optratlist": "List (Option Rat)", "intpair": "Int × Int", "optintpair": "Option Int × Option Int",
-           "opt:intpair": "Option (Int × Int)", "opt:ratlist": "Option (List Rat)", "ratlistpair": "List Rat × List Rat"}
+           "opt:intpair": "Option (Int × Int)", "opt:ratlist": "Option (List Rat)", "ratlistpair": "List Rat × List Rat",
+           "ratquad": "Rat × Rat × Rat × Rat", "opt:ratquad": "Option (Rat × Rat × Rat × Rat)"}
+QUAD_PROJ = [".1", ".2.1", ".2.2.1", ".2.2.2"]
+
+
+def _lean_name(key):
+    """Lean variable for an environment key (`x` or `x[k]`)."""
+    return key.replace("[", "_").replace("]", "")
+
+
+class _Subst(ast.NodeTransformer):
+    """Replace loop variables by the constants of one unrolled iteration."""
+
+    def __init__(self, consts):
+        self.consts = consts
+
+    def visit_Name(self, node):
+        if node.id in self.consts and isinstance(node.ctx, ast.Load):
+            return ast.copy_location(ast.Constant(value=self.consts[node.id]), node)
+        return node
+
+
+def _const_int(n, consts=None):
+    """Value of an integer-only constant expression (`(-1) ** (i % 2)` once `i` is known), else None."""
+    consts = consts or {}
+    if isinstance(n, ast.Constant) and isinstance(n.value, int) and not isinstance(n.value, bool):
+        return n.value
+    if isinstance(n, ast.Name) and n.id in consts:
+        return consts[n.id]
+    if isinstance(n, ast.UnaryOp) and isinstance(n.op, ast.USub):
+        v = _const_int(n.operand, consts)
+        return None if v is None else -v
+    if isinstance(n, ast.BinOp) and isinstance(n.op, (ast.Add, ast.Sub, ast.Mult, ast.Mod, ast.Pow)):
+        a, b = _const_int(n.left, consts), _const_int(n.right, consts)
+        if a is None or b is None or (isinstance(n.op, ast.Pow) and not 0 <= b <= 8) or (isinstance(n.op, ast.Mod) and b == 0):
+            return None
+        return {ast.Add: a + b, ast.Sub: a - b, ast.Mult: a * b, ast.Mod: a % b if b else 0, ast.Pow: a ** b}[type(n.op)]
+    return None
 
 
 def _inner(ty):
@@ -979,6 +1024,8 @@ class DoT:
                              ["rat", "rat", "optint", "optrat", "str", "bool"], ["ratlist"]),
     }
     KNOWN_CHECKS = {"check_region": ("Gen.checkRegion4", 4)}      # validation calls on a fixed-length sequence argument
+    IDENTITY_CALLS = ("check_coordinates",)      # `x = f(x)[:2]`: validation that returns its argument (same shapes or ValueError; shapes are equal here by typing)
+    IGNORED_CALLS = ("_check_rolling_window_overlap",)      # warn-only helpers
 
     def __init__(self, env, counter=None):
         self.env = dict(env)
@@ -1002,7 +1049,20 @@ class DoT:
         return tx, ty
 
     # ---- expressions: returns (pre-lines, lean text, type)
+    def quad_parts(self, n):
+        """The four Lean expressions of a 4-sequence value (a tuple parameter or a list built element by element)."""
+        if isinstance(n, ast.Name) and self.env.get(n.id, ("", ""))[1] == "vec4":
+            return [self.env[f"{n.id}[{k}]"][0] for k in range(4)]
+        if isinstance(n, ast.Name) and all(f"{n.id}[{k}]" in self.env for k in range(4)):
+            return [self.env[f"{n.id}[{k}]"][0] for k in range(4)]
+        if isinstance(n, ast.Name) and self.env.get(n.id, ("", ""))[1] == "ratquad":
+            return [self.env[n.id][0] + pr for pr in QUAD_PROJ]
+        _fail(n, "not a 4-sequence")
+
     def ex(self, n):
+        c = _const_int(n)
+        if c is not None and not isinstance(n, ast.Constant):
+            return [], (f"({c})" if c < 0 else str(c)), "num"
         if isinstance(n, ast.Name):
             if n.id not in self.env:
                 _fail(n, "unbound name")
@@ -1064,6 +1124,8 @@ class DoT:
                 return pv + [f"let {t} ← idxO {v} {idx}"], t, "optrat"
             if tv in ("intpair", "optintpair") and idx in (0, 1):
                 return pv, f"{v}.{idx + 1}", "int" if tv == "intpair" else "optint"
+            if tv == "ratquad" and idx in (0, 1, 2, 3):
+                return pv, v + QUAD_PROJ[idx], "rat"
             _fail(n, "subscript")
         if isinstance(n, ast.Call):
             f = n.func
@@ -1089,6 +1151,34 @@ class DoT:
                     r = self.fresh()
                     pre.append(f"let {r} ← linspaceE {args[0]} {args[1]} {t}")
                     return pre, r, "ratlist"
+            if isinstance(f, ast.Name) and f.id == "min" and len(n.args) == 2 and not n.keywords:
+                p1, a, ta = self.ex(n.args[0])
+                p2, b, tb = self.ex(n.args[1])
+                if ta == "rat" and tb == "rat":
+                    return p1 + p2, f"(ratMin {a} {b})", "rat"
+            if isinstance(f, ast.Name) and f.id == "get_region" and len(n.args) == 1 and isinstance(n.args[0], ast.Name) \
+                    and all(f"{n.args[0].id}[{k}]" in self.env for k in (0, 1)):
+                t = self.fresh()          # numpy min/max of an empty array: ValueError
+                return [f"let {t} ← quadOfOpts (Gen.getRegion {self.env[n.args[0].id + '[0]'][0]} {self.env[n.args[0].id + '[1]'][0]})"], t, "ratquad"
+            if isinstance(f, ast.Name) and f.id == "grid_coordinates" and len(n.args) == 1:
+                kw = {k.arg: k.value for k in n.keywords}
+                if not set(kw) <= {"spacing", "shape", "adjust", "pixel_register"} or not {"spacing", "shape", "adjust"} <= set(kw):
+                    _fail(n, "grid_coordinates call with other arguments")
+                pre, args = [], list(self.quad_parts(n.args[0]))
+                for nm, want in (("shape", "opt:intpair"), ("spacing", "opt:ratlist"), ("adjust", "str")):
+                    p, tx, ty = self.ex(kw[nm])
+                    if ty != want:
+                        _fail(n, f"grid_coordinates: {nm} has type {ty}")
+                    pre += p
+                    args.append(tx)
+                if "pixel_register" in kw:
+                    p, tx, ty = self.ex(kw["pixel_register"])
+                    pre += p
+                    args.append(tx)
+                else:
+                    args.append("false")
+                r = self.fresh()          # (the default meshgrid=True output is the meshgrid of these two lines: numpy contract)
+                return pre + [f"let {r} ← Gen.gridLines {' '.join(a if ' ' not in a or a.startswith('(') else '(' + a + ')' for a in args)}"], r, "ratlistpair"
             if isinstance(f, ast.Name) and f.id in self.KNOWN_CALLS:
                 lean, names, argt, rett = self.KNOWN_CALLS[f.id]
                 given = dict(zip(names, n.args))
@@ -1136,6 +1226,14 @@ class DoT:
             p, t, ty = self.ex(n)
             if ty == "bool":
                 return p, f"{t} = true"
+        if isinstance(n, ast.Compare) and len(n.ops) == 1 and type(n.ops[0]) in (ast.Lt, ast.Gt, ast.LtE, ast.GtE):
+            p1, a, ta = self.ex(n.left)
+            p2, b, tb = self.ex(n.comparators[0])
+            if ta in ("rat", "num", "int") and tb in ("rat", "num", "int") and "rat" in (ta, tb):
+                sym = {ast.Lt: "<", ast.Gt: ">", ast.LtE: "≤", ast.GtE: "≥"}[type(n.ops[0])]
+                ca = a if ta != "int" else f"(({a} : Int) : Rat)"
+                cb = b if tb != "int" else f"(({b} : Int) : Rat)"
+                return p1 + p2, f"{ca} {sym} {cb}"
         _fail(n, "unsupported condition")
 
     # ---- statements
@@ -1147,6 +1245,10 @@ class DoT:
                     for e in (t.elts if isinstance(t, ast.Tuple) else [t]):
                         if isinstance(e, ast.Name) and e.id not in out:
                             out.append(e.id)
+                        if isinstance(e, ast.Subscript) and isinstance(e.value, ast.Name) and _const_int(e.slice) is not None:
+                            key = f"{e.value.id}[{_const_int(e.slice)}]"
+                            if key not in out:
+                                out.append(key)
             elif isinstance(st, ast.If):
                 for x in self.assigned(st.body) + self.assigned(st.orelse):
                     if x not in out:
@@ -1171,6 +1273,40 @@ class DoT:
                 base = st.value.args[0].id
                 lines.append(f"let _ ← {lean} " + " ".join(self.env[f"{base}[{i}]"][0] for i in range(k)))
                 continue
+            if isinstance(st, ast.Assign) and len(st.targets) == 1 and isinstance(st.targets[0], ast.Name) and isinstance(st.value, ast.Subscript) \
+                    and isinstance(st.value.value, ast.Call) and getattr(st.value.value.func, "id", None) in self.IDENTITY_CALLS \
+                    and len(st.value.value.args) == 1 and getattr(st.value.value.args[0], "id", None) == st.targets[0].id:
+                continue
+            if isinstance(st, ast.Expr) and isinstance(st.value, ast.Call) and getattr(st.value.func, "id", None) in self.IGNORED_CALLS:
+                continue
+            if isinstance(st, ast.Assign) and len(st.targets) == 1 and isinstance(st.targets[0], ast.Name) and isinstance(st.value, ast.ListComp) \
+                    and len(st.value.generators) == 1 and not st.value.generators[0].ifs and isinstance(st.value.generators[0].iter, ast.Call) \
+                    and getattr(st.value.generators[0].iter.func, "id", None) == "enumerate" and isinstance(st.value.generators[0].target, ast.Tuple):
+                # [expr for i, x in enumerate(<4-sequence>)] unrolled: i is a constant in each element
+                g = st.value.generators[0]
+                parts = self.quad_parts(g.iter.args[0])
+                iname, xname = g.target.elts[0].id, g.target.elts[1].id
+                name = st.targets[0].id
+                for k in range(4):
+                    sub = self.sub()
+                    sub.env[xname] = (parts[k], "rat")
+                    p, tx, ty = sub.ex(_Subst({iname: k}).visit(ast.parse(ast.unparse(st.value.elt), mode="eval").body))
+                    if ty not in ("rat", "num"):
+                        _fail(st, "comprehension element is not a number")
+                    lines += p + [f"let {name}_{k} : Rat := {tx}"]
+                for k in range(4):
+                    self.env[f"{name}[{k}]"] = (f"{name}_{k}", "rat")
+                self.env[name] = ("<vec4>", "vec4")
+                continue
+            if isinstance(st, ast.For) and not st.orelse and isinstance(st.iter, ast.Tuple) and isinstance(st.target, ast.Tuple) \
+                    and all(isinstance(e, ast.Tuple) and len(e.elts) == len(st.target.elts) and all(_const_int(c) is not None for c in e.elts)
+                            for e in st.iter.elts):
+                # loop over a literal tuple of constant tuples: unrolled
+                for e in st.iter.elts:
+                    consts = {t.id: _const_int(c) for t, c in zip(st.target.elts, e.elts)}
+                    body = [_Subst(consts).visit(ast.parse(ast.unparse(b)).body[0]) for b in st.body]
+                    lines += self.block(body)
+                continue
             if isinstance(st, ast.If) and len(st.body) == 1 and isinstance(st.body[0], ast.Raise) and not st.orelse:
                 p, c = self.cond(st.test)
                 sub = self.sub()
@@ -1178,6 +1314,19 @@ class DoT:
                 continue
             if isinstance(st, ast.If):
                 lines += self.branching(st)
+                continue
+            if isinstance(st, ast.Assign) and all(isinstance(t, ast.Subscript) and isinstance(t.value, ast.Name) and _const_int(t.slice) is not None
+                                                  for t in st.targets):
+                p, tx, ty = self.ex(st.value)
+                if ty not in ("rat", "num"):
+                    _fail(st, "element assignment of a non-number")
+                lines += p
+                for t in st.targets:
+                    key = f"{t.value.id}[{_const_int(t.slice)}]"
+                    if key not in self.env:
+                        _fail(st, "element assignment to an unknown sequence")
+                    lines.append(f"let {_lean_name(key)} : Rat := {tx}")
+                    self.env[key] = (_lean_name(key), "rat")
                 continue
             if isinstance(st, ast.Assign) and len(st.targets) == 1:
                 t, v = st.targets[0], st.value
@@ -1207,9 +1356,10 @@ class DoT:
 
     def branching(self, st):
         """if / elif / else whose branches (re)assign variables (possibly raising in some)."""
-        vs = self.assigned([st])
-        if any(v not in self.env for v in vs):
-            _fail(st, "a branch introduces a new name")
+        # names first bound inside a branch are local to it (using one afterwards is an "unbound name" error of the translation)
+        vs = [v for v in self.assigned([st]) if v in self.env]
+        if not vs:
+            _fail(st, "a branching statement that assigns nothing visible")
 
         def opened(test):
             if isinstance(test, ast.Compare) and len(test.ops) == 1 and isinstance(test.ops[0], (ast.Is, ast.IsNot)) \
@@ -1286,10 +1436,10 @@ class DoT:
                         + render(t[4], ind + 2, inside))
             return ([f"{pad}match {t[1]} with", f"{pad}| some {t[1]} => do"] + render(t[2], ind + 2, t[1]) + [f"{pad}| none => do"]
                     + render(t[3], ind + 2, inside))
-        lhs = "(" + ", ".join(vs) + ")" if len(vs) > 1 else vs[0]
+        lhs = "(" + ", ".join(_lean_name(v) for v in vs) + ")" if len(vs) > 1 else _lean_name(vs[0])
         body = render(tree, 1)
         for v in vs:
-            self.env[v] = (v, out_ty[v])
+            self.env[v] = (_lean_name(v), out_ty[v])
         return [f"let {lhs} ← (do"] + body + ["  )"]
 
 
